@@ -827,6 +827,29 @@ func (b *cgBuilder) reach(es []cgEdge, roots []int, keep func(lab int) bool) (ma
 	return par, order
 }
 
+// dist: breadth-first distances from one node over the kept edges.
+func (b *cgBuilder) dist(es []cgEdge, from int, keep func(lab int) bool) map[int]int {
+	adj := map[int][]int{}
+	for _, e := range es {
+		if keep(e.Lab) {
+			adj[e.Src] = append(adj[e.Src], e.Dst)
+		}
+	}
+	d := map[int]int{from: 0}
+	q := []int{from}
+	for len(q) > 0 {
+		a := q[0]
+		q = q[1:]
+		for _, c := range adj[a] {
+			if _, ok := d[c]; !ok {
+				d[c] = d[a] + 1
+				q = append(q, c)
+			}
+		}
+	}
+	return d
+}
+
 // ---------------------------------------------------------------- name tables (syntactic)
 
 type cgBinding struct {
@@ -1322,6 +1345,304 @@ func (b *cgBuilder) replFacts() (dots []cgGuarded, ctors []cgGuarded) {
 	return
 }
 
+// ---------------------------------------------------------------- names looked up by Go code
+
+// cgNameSite: a constant string that Go code turns into a symbol (it flows, possibly through
+// parameters of intermediate functions, into the index of env.symtable): a NAME the
+// interpreter itself looks up or binds. Kind "bind" when the callee is one of the Add*
+// registration helpers, "lookup" otherwise. A script can bind such a name too, so a decision
+// that depends on what the name resolves to is under the script's control.
+type cgNameSite struct{ Func, Callee, Name, Kind string }
+
+func (b *cgBuilder) forEachDecl(f func(p *packages.Package, fd *ast.FuncDecl, obj *types.Func)) {
+	for _, p := range b.pkgs() {
+		for _, file := range p.Syntax {
+			for _, d := range file.Decls {
+				fd, ok := d.(*ast.FuncDecl)
+				if !ok || fd.Body == nil {
+					continue
+				}
+				obj, _ := p.TypesInfo.Defs[fd.Name].(*types.Func)
+				if obj != nil {
+					f(p, fd, obj)
+				}
+			}
+		}
+	}
+}
+
+func paramIndex(fd *ast.FuncDecl, info *types.Info, e ast.Expr) int {
+	id, ok := unparen(e).(*ast.Ident)
+	if !ok {
+		return -1
+	}
+	obj := info.Uses[id]
+	k := 0
+	for _, fl := range fd.Type.Params.List {
+		if len(fl.Names) == 0 {
+			k++
+			continue
+		}
+		for _, n := range fl.Names {
+			if info.Defs[n] == obj && obj != nil {
+				return k
+			}
+			k++
+		}
+	}
+	return -1
+}
+
+func calleeOf(info *types.Info, ce *ast.CallExpr) *types.Func {
+	switch f := unparen(ce.Fun).(type) {
+	case *ast.Ident:
+		fn, _ := info.Uses[f].(*types.Func)
+		return fn
+	case *ast.SelectorExpr:
+		fn, _ := info.Uses[f.Sel].(*types.Func)
+		return fn
+	}
+	return nil
+}
+
+func (b *cgBuilder) nameSites() []cgNameSite {
+	pos := map[*types.Func]map[int]bool{}
+	add := func(f *types.Func, i int) bool {
+		if pos[f] == nil {
+			pos[f] = map[int]bool{}
+		}
+		if pos[f][i] {
+			return false
+		}
+		pos[f][i] = true
+		return true
+	}
+	// seed: a parameter used as index of a field named symtable
+	b.forEachDecl(func(p *packages.Package, fd *ast.FuncDecl, obj *types.Func) {
+		ast.Inspect(fd.Body, func(x ast.Node) bool {
+			ix, ok := x.(*ast.IndexExpr)
+			if !ok {
+				return true
+			}
+			if se, ok := unparen(ix.X).(*ast.SelectorExpr); ok && se.Sel.Name == "symtable" {
+				if k := paramIndex(fd, p.TypesInfo, ix.Index); k >= 0 {
+					add(obj, k)
+				}
+			}
+			return true
+		})
+	})
+	for changed := true; changed; {
+		changed = false
+		b.forEachDecl(func(p *packages.Package, fd *ast.FuncDecl, obj *types.Func) {
+			ast.Inspect(fd.Body, func(x ast.Node) bool {
+				ce, ok := x.(*ast.CallExpr)
+				if !ok {
+					return true
+				}
+				g := calleeOf(p.TypesInfo, ce)
+				if g == nil || pos[g.Origin()] == nil {
+					return true
+				}
+				for i := range pos[g.Origin()] {
+					if i < len(ce.Args) {
+						if k := paramIndex(fd, p.TypesInfo, ce.Args[i]); k >= 0 && add(obj, k) {
+							changed = true
+						}
+					}
+				}
+				return true
+			})
+		})
+	}
+	var out []cgNameSite
+	seen := map[cgNameSite]bool{}
+	b.forEachDecl(func(p *packages.Package, fd *ast.FuncDecl, obj *types.Func) {
+		fname, _ := b.declName(p, fd)
+		if fname == "" {
+			fname = b.shortPkg(p.Types) + ".init"
+		}
+		ast.Inspect(fd.Body, func(x ast.Node) bool {
+			ce, ok := x.(*ast.CallExpr)
+			if !ok {
+				return true
+			}
+			g := calleeOf(p.TypesInfo, ce)
+			if g == nil || pos[g.Origin()] == nil {
+				return true
+			}
+			for i := range pos[g.Origin()] {
+				if i < len(ce.Args) {
+					if nm, ok := b.stringLit(p.TypesInfo, ce.Args[i]); ok {
+						kind := "lookup"
+						if strings.HasPrefix(g.Name(), "Add") || strings.HasPrefix(g.Name(), "LazyAdd") {
+							kind = "bind"
+						}
+						st := cgNameSite{fname, g.Name(), nm, kind}
+						if !seen[st] {
+							seen[st] = true
+							out = append(out, st)
+						}
+					}
+				}
+			}
+			return true
+		})
+	})
+	sort.Slice(out, func(i, j int) bool {
+		if out[i].Func != out[j].Func {
+			return out[i].Func < out[j].Func
+		}
+		return out[i].Name < out[j].Name
+	})
+	return out
+}
+
+// scriptGates: `if` conditions (of an `if` one branch of which always leaves the function: a gate)
+// that call a bool-valued function of the two packages from which
+// a constant-name LOOKUP is reachable (reference graph): a decision that depends on what a
+// name resolves to, hence on bindings a script can make. (func containing the if, predicate,
+// names the predicate can look up)
+type cgGate struct {
+	Func, Pred string
+	Names      []string
+}
+
+func (b *cgBuilder) scriptGates(es []cgEdge, sites []cgNameSite) []cgGate {
+	lookupIn := map[string][]string{}
+	for _, st := range sites {
+		if st.Kind == "lookup" {
+			lookupIn[st.Func] = append(lookupIn[st.Func], st.Name)
+		}
+	}
+	predNames := map[*types.Func][]string{}
+	isPred := func(f *types.Func) ([]string, bool) {
+		f = f.Origin()
+		if ns, ok := predNames[f]; ok {
+			return ns, len(ns) > 0
+		}
+		predNames[f] = nil
+		sig, _ := f.Type().(*types.Signature)
+		if sig == nil || sig.Results().Len() != 1 {
+			return nil, false
+		}
+		if bt, ok := sig.Results().At(0).Type().Underlying().(*types.Basic); !ok || bt.Kind() != types.Bool {
+			return nil, false
+		}
+		id, ok := b.byObj[f]
+		if !ok {
+			return nil, false
+		}
+		dm := b.dist(es, id, func(int) bool { return true })
+		best := map[string]int{}
+		for nid, dd := range dm {
+			base := strings.SplitN(b.nodes[nid].Name, "$", 2)[0]
+			for _, n := range lookupIn[base] {
+				if old, ok := best[n]; !ok || dd < old {
+					best[n] = dd
+				}
+			}
+		}
+		var ns []string
+		for n := range best {
+			ns = append(ns, n)
+		}
+		// nearest first: the name looked up by the predicate itself comes before the names
+		// that anything it can reach looks up
+		sort.Slice(ns, func(i, j int) bool {
+			if best[ns[i]] != best[ns[j]] {
+				return best[ns[i]] < best[ns[j]]
+			}
+			return ns[i] < ns[j]
+		})
+		predNames[f] = ns
+		return ns, len(ns) > 0
+	}
+	var out []cgGate
+	b.forEachDecl(func(p *packages.Package, fd *ast.FuncDecl, obj *types.Func) {
+		fname, _ := b.declName(p, fd)
+		ast.Inspect(fd.Body, func(x ast.Node) bool {
+			ifs, ok := x.(*ast.IfStmt)
+			if !ok {
+				return true
+			}
+			// not inside functions that are themselves predicates (predicates built from predicates)
+			if sig, _ := obj.Type().(*types.Signature); sig != nil && sig.Results().Len() == 1 {
+				if bt, ok := sig.Results().At(0).Type().Underlying().(*types.Basic); ok && bt.Kind() == types.Bool {
+					return true
+				}
+			}
+			// only gates that cut the rest of the function off (one branch always leaves)
+			cuts := terminates(p.TypesInfo, ifs.Body.List)
+			if eb, ok := ifs.Else.(*ast.BlockStmt); ok && terminates(p.TypesInfo, eb.List) {
+				cuts = true
+			}
+			if !cuts {
+				return true
+			}
+			ast.Inspect(ifs.Cond, func(y ast.Node) bool {
+				if _, isLit := y.(*ast.FuncLit); isLit {
+					return false
+				}
+				if ce, ok := y.(*ast.CallExpr); ok {
+					if g := calleeOf(p.TypesInfo, ce); g != nil && b.ours(g.Pkg()) {
+						if ns, ok := isPred(g); ok {
+							out = append(out, cgGate{fname, b.shortPkg(g.Pkg()) + "." + b.relName(g.Origin()), ns})
+						}
+					}
+				}
+				return true
+			})
+			return true
+		})
+	})
+	return out
+}
+
+// flagGuards: the functions in which an `if` condition reads the sandbox flag, and how:
+// "field" (a selector of the field itself) or "accessor" (a call of a method whose body is
+// `return recv.<flag>`).
+func (b *cgBuilder) flagGuards() [][3]string {
+	var out [][3]string
+	seen := map[[3]string]bool{}
+	b.forEachDecl(func(p *packages.Package, fd *ast.FuncDecl, obj *types.Func) {
+		fname, _ := b.declName(p, fd)
+		id := -1
+		if n, ok := b.byObj[obj]; ok {
+			id = n
+		}
+		ast.Inspect(fd.Body, func(x ast.Node) bool {
+			ifs, ok := x.(*ast.IfStmt)
+			if !ok {
+				return true
+			}
+			ast.Inspect(ifs.Cond, func(y ast.Node) bool {
+				kind := ""
+				switch e := y.(type) {
+				case *ast.SelectorExpr:
+					if v, ok := p.TypesInfo.Uses[e.Sel].(*types.Var); ok && b.zflag != nil && v == b.zflag {
+						kind = "field"
+					}
+				case *ast.CallExpr:
+					if g := calleeOf(p.TypesInfo, e); g != nil && b.zaccessors[g] {
+						kind = "accessor"
+					}
+				}
+				if kind != "" {
+					k := [3]string{fname, strconv.Itoa(id), kind}
+					if !seen[k] {
+						seen[k] = true
+						out = append(out, k)
+					}
+				}
+				return true
+			})
+			return true
+		})
+	})
+	return out
+}
+
 // ---------------------------------------------------------------- emission
 
 func leanNatList(xs []int) string {
@@ -1565,6 +1886,25 @@ func runCallGraph(w *World) (out string, err error) {
 	sb.WriteString(LeanList("flagAssignSites", "(String × String)", as, 100))
 	sb.WriteString(LeanList("zlispAllocSites", "(String × String)", al, 100))
 
+	// names looked up by Go code, gates that depend on them, functions guarded by the flag
+	sites := b.nameSites()
+	gates := b.scriptGates(es, sites)
+	var nsq, gq, fgq []string
+	for _, st := range sites {
+		nsq = append(nsq, fmt.Sprintf("(%s, %s, %s, %s)", LeanString(st.Func), LeanString(st.Callee), LeanString(st.Name), LeanString(st.Kind)))
+	}
+	for _, g := range gates {
+		gq = append(gq, fmt.Sprintf("(%s, %s)", LeanString(g.Func), LeanString(g.Pred)))
+	}
+	for _, g := range b.flagGuards() {
+		fgq = append(fgq, fmt.Sprintf("(%s, %s, %s)", LeanString(g[0]), g[1], LeanString(g[2])))
+	}
+	sb.WriteString("\n/-- constant strings that Go code turns into symbols: (function, callee, name, lookup|bind) -/\n")
+	sb.WriteString(LeanList("nameSites", "(String × String × String × String)", nsq, 100))
+	sb.WriteString("/-- `if` conditions calling a bool-valued function from which a constant-name lookup is reachable:\n(function containing the if, predicate) -/\n")
+	sb.WriteString(LeanList("scriptGates", "(String × String)", gq, 100))
+	sb.WriteString("/-- functions in which an `if` condition reads the sandbox flag: (function, node id, field|accessor) -/\n")
+	sb.WriteString(LeanList("flagGuards", "(String × Nat × String)", fgq, 100))
 	dots, ctors := b.replFacts()
 	var ds, cs []string
 	for _, d := range dots {
@@ -1663,7 +2003,7 @@ func runCallGraph(w *World) (out string, err error) {
 		return o
 	}
 	// per bound name: which external objects the Go function behind it can reach (over the
-	// edges kept for the configuration). checks/C08.py turns names that reach something
+	// edges kept for the configuration) and in how many steps. checks/C08.py turns names that reach something
 	// forbidden into the "suspect names" of the failing-input search.
 	{
 		var extNames []string
@@ -1675,7 +2015,7 @@ func runCallGraph(w *World) (out string, err error) {
 			}
 		}
 		facts["externals"] = extNames
-		nameReach := map[string]map[string][]int{}
+		nameReach := map[string]map[string][][2]int{}
 		for _, c := range []string{"bare", "std"} {
 			cc := c
 			bs := append([]cgBinding{}, bare...)
@@ -1683,25 +2023,37 @@ func runCallGraph(w *World) (out string, err error) {
 				bs = append(bs, std...)
 			}
 			bs = append(bs, special...)
-			m := map[string][]int{}
+			m := map[string][][2]int{}
 			for _, x := range bs {
 				id, ok := b.byName[x.Target]
 				if !ok || x.Target == "" || !cgKeep(cc, x.Lab) {
 					continue
 				}
-				par, _ := b.reach(es, []int{id}, func(lab int) bool { return cgKeep(cc, lab) })
-				var xs []int
-				for nid := range par {
+				dm := b.dist(es, id, func(lab int) bool { return cgKeep(cc, lab) })
+				xs := [][2]int{}
+				for nid, dd := range dm {
 					if k, ok := extIdx[nid]; ok {
-						xs = append(xs, k)
+						xs = append(xs, [2]int{k, dd})
 					}
 				}
-				sort.Ints(xs)
+				sort.Slice(xs, func(i, j int) bool { return xs[i][0] < xs[j][0] })
 				m[x.Name] = xs
 			}
 			nameReach[c] = m
 		}
 		facts["name_reach"] = nameReach
+	}
+	{
+		var ns []map[string]string
+		for _, st := range sites {
+			ns = append(ns, map[string]string{"func": st.Func, "callee": st.Callee, "name": st.Name, "kind": st.Kind})
+		}
+		facts["name_sites"] = ns
+		var gs []map[string]interface{}
+		for _, g := range gates {
+			gs = append(gs, map[string]interface{}{"func": g.Func, "pred": g.Pred, "names": g.Names})
+		}
+		facts["script_gates"] = gs
 	}
 	facts["nodes"] = len(b.nodes)
 	facts["edges"] = len(es)
